@@ -128,6 +128,7 @@ type c12Rec struct {
 	order      []string          // list ops: order
 	dup        string
 	ballast    int    // list ops: ballast entries listed
+	blocked    bool   // register ops: the registration call did not return
 	ok         bool   // call/get/read succeeded
 	text       string // call/get/read payload
 	code       int    // error code
@@ -164,7 +165,18 @@ func execC12(c C12Case) *Failure {
 		r.start = clock.Add(1)
 		post := func(method string, params string) (map[string]interface{}, string) {
 			id := fmt.Sprintf(`"w%d-%d"`, worker, clock.Add(1))
-			ex := conn.Send([]byte(fmt.Sprintf(`{"jsonrpc":"2.0","id":%s,"method":%q,"params":%s}`, id, method, params)), id, Bound())
+			exCh := make(chan Exchange, 1)
+			go func() {
+				exCh <- conn.Send([]byte(fmt.Sprintf(`{"jsonrpc":"2.0","id":%s,"method":%q,"params":%s}`, id, method, params)), id, Bound())
+			}()
+			var ex Exchange
+			select {
+			case ex = <-exCh:
+			case <-time.After(Patience() + 2*time.Second):
+				// the request handler did not return at all (a handler stuck on the registry it is being served from)
+				r.blocked = true
+				return nil, "the request did not return"
+			}
 			if len(ex.Frames) != 1 {
 				return nil, fmt.Sprintf("status %d frames %d err %v", ex.Status, len(ex.Frames), ex.Err)
 			}
@@ -191,6 +203,9 @@ func execC12(c C12Case) *Failure {
 						r.ballast++
 					}
 					continue
+				}
+				if strings.HasPrefix(n, "inner-") || strings.HasPrefix(n, "inner://") {
+					continue // registered by a handler while it was serving a request
 				}
 				if _, dup := r.listed[n]; dup {
 					r.dup = n
@@ -230,9 +245,27 @@ func execC12(c C12Case) *Failure {
 		case "regprompt":
 			r.ver = int(verSeq.Add(1))
 			tag := fmt.Sprintf("%s:v%d", name, r.ver)
-			w.Srv.RegisterPrompt(&mcp.Prompt{Name: name, Description: tag}, func(ctx context.Context, req *mcp.GetPromptRequest) (*mcp.GetPromptResult, error) {
-				return &mcp.GetPromptResult{Description: tag, Messages: []mcp.PromptMessage{{Role: mcp.RoleUser, Content: mcp.NewTextContent(tag)}}}, nil
-			})
+			ver := r.ver
+			regDone := make(chan struct{})
+			go func() {
+				defer close(regDone)
+				w.Srv.RegisterPrompt(&mcp.Prompt{Name: name, Description: tag}, func(ctx context.Context, req *mcp.GetPromptRequest) (*mcp.GetPromptResult, error) {
+					// handlers take a moment, and some register further entries while they serve (a catalogue that grows on demand)
+					time.Sleep(time.Duration(ver%4) * 150 * time.Microsecond)
+					if ver%3 == 0 {
+						in := fmt.Sprintf("inner-%d", ver)
+						w.Srv.RegisterPrompt(&mcp.Prompt{Name: in, Description: in}, func(ctx context.Context, req *mcp.GetPromptRequest) (*mcp.GetPromptResult, error) {
+							return &mcp.GetPromptResult{}, nil
+						})
+					}
+					return &mcp.GetPromptResult{Description: tag, Messages: []mcp.PromptMessage{{Role: mcp.RoleUser, Content: mcp.NewTextContent(tag)}}}, nil
+				})
+			}()
+			select {
+			case <-regDone:
+			case <-time.After(Patience() + 2*time.Second):
+				r.blocked = true
+			}
 		case "listprompts":
 			list("prompts/list", "prompts", "name")
 		case "getprompt":
@@ -240,14 +273,32 @@ func execC12(c C12Case) *Failure {
 		case "regres":
 			r.ver = int(verSeq.Add(1))
 			tag := fmt.Sprintf("%s:v%d", uri, r.ver)
-			if r.ver%2 == 0 {
-				w.Srv.RegisterResources(&mcp.Resource{URI: uri, Name: name, Description: tag}, func(ctx context.Context, req *mcp.ReadResourceRequest) ([]mcp.ResourceContents, error) {
-					return []mcp.ResourceContents{mcp.TextResourceContents{URI: uri, Text: tag}}, nil
-				})
-			} else {
-				w.Srv.RegisterResource(&mcp.Resource{URI: uri, Name: name, Description: tag}, func(ctx context.Context, req *mcp.ReadResourceRequest) (mcp.ResourceContents, error) {
-					return mcp.TextResourceContents{URI: uri, Text: tag}, nil
-				})
+			ver := r.ver
+			regDone := make(chan struct{})
+			go func() {
+				defer close(regDone)
+				if ver%2 == 0 {
+					w.Srv.RegisterResources(&mcp.Resource{URI: uri, Name: name, Description: tag}, func(ctx context.Context, req *mcp.ReadResourceRequest) ([]mcp.ResourceContents, error) {
+						time.Sleep(time.Duration(ver%4) * 150 * time.Microsecond)
+						return []mcp.ResourceContents{mcp.TextResourceContents{URI: uri, Text: tag}}, nil
+					})
+				} else {
+					w.Srv.RegisterResource(&mcp.Resource{URI: uri, Name: name, Description: tag}, func(ctx context.Context, req *mcp.ReadResourceRequest) (mcp.ResourceContents, error) {
+						time.Sleep(time.Duration(ver%4) * 150 * time.Microsecond)
+						if ver%3 == 0 {
+							in := fmt.Sprintf("inner://%d", ver)
+							w.Srv.RegisterResource(&mcp.Resource{URI: in, Name: in, Description: in}, func(ctx context.Context, req *mcp.ReadResourceRequest) (mcp.ResourceContents, error) {
+								return mcp.TextResourceContents{URI: in, Text: in}, nil
+							})
+						}
+						return mcp.TextResourceContents{URI: uri, Text: tag}, nil
+					})
+				}
+			}()
+			select {
+			case <-regDone:
+			case <-time.After(Patience() + 2*time.Second):
+				r.blocked = true
 			}
 		case "regresnil":
 			// a registration without a handler: whether it is refused or kept (as an entry that cannot be read) is the library's
@@ -362,6 +413,11 @@ func judgeC12(c C12Case, recs []*c12Rec) *Failure {
 			s = s[:1500] + "..."
 		}
 		return s
+	}
+	for _, r := range recs {
+		if r.blocked {
+			return TimingFailf("C12/registration-blocked", "%s: %s of %q did not return (a registration waits for handlers in progress, or the registry is wedged)\nhistory: %s", c.Mode, r.op.Op, key(r.op), hist())
+		}
 	}
 	for _, r := range recs {
 		reg := c12Registry(r.op.Op)
